@@ -21,7 +21,11 @@ def c07_jobs(tier):
     js = [job('prim-plain-t1', 'c07', 'plain', threads=1, shards=6 if q else 12, timeout=3600),
           job('prim-plain-t8', 'c07', 'plain', threads=8, args=['--sub', RANDOM], timeout=3600),
           job('prim-asan-t1', 'c07', 'asan', threads=1, shards=6 if q else 12, timeout=5400),
-          job('prim-tsan-t4', 'c07', 'tsan', threads=4, shards=2 if q else 4, args=['--sub', RANDOM], timeout=5400)]
+          job('prim-tsan-t4', 'c07', 'tsan', threads=4, shards=2 if q else 4, args=['--sub', RANDOM], timeout=5400),
+          # teams smaller than omp_get_max_threads(): OMP_THREAD_LIMIT below OMP_NUM_THREADS, and calls from inside an enclosing
+          # parallel region (nesting off) -- added after a seeded change (hand-made chunking by omp_get_max_threads()) was missed
+          job('prim-plain-t8-limit3', 'c07', 'plain', threads=8, args=['--sub', 'vecops,spmv,mixed'], env={'OMP_THREAD_LIMIT': '3'}, timeout=3600),
+          job('prim-plain-t8-nested', 'c07', 'plain', threads=8, args=['--sub', 'vecops,spmv,mixed', '--nested=1'], timeout=3600)]
     if not q:
         js += [job('prim-plain-t3', 'c07', 'plain', threads=3, args=['--sub', RANDOM], shards=2, timeout=3600),
                job('prim-asan-t4', 'c07', 'asan', threads=4, shards=4, args=['--sub', RANDOM], timeout=5400)]
